@@ -58,7 +58,7 @@ def main(agent, base):
             for imp in re.findall(r"^import Driver\.\w+$", at, re.M):
                 if imp not in cur:
                     cur = cur.replace("import Driver.C04\n", "import Driver.C04\n" + imp + "\n")
-            for mode in re.findall(r'^\s*\("[\w-]+", [\w.]+\),?$', at, re.M):
+            for mode in re.findall(r'\("[\w-]+", [\w.]+\)', at):
                 key = mode.strip().rstrip(",")
                 if key not in cur:
                     cur = cur.replace('def modes : List (String × (String → String)) := [\n', 'def modes : List (String × (String → String)) := [\n  ' + key + ',\n')
